@@ -46,7 +46,7 @@ fn main() {
             let budget_s = std::env::var("WPV_BUDGET_S").ok().and_then(|s| s.parse::<f64>().ok()).unwrap_or(if tier.is_quick() { 150.0 } else { 1500.0 });
             // watchdog: code under test that stops terminating (e.g. a loop whose exit condition was broken) must not hang
             // the check forever; a hang is a machinery failure (exit 2), never a verdict
-            let hard_cap = std::env::var("WPV_HARD_CAP_S").ok().and_then(|s| s.parse::<u64>().ok()).unwrap_or(if tier.is_quick() { 900 } else { 5400 });
+            let hard_cap = std::env::var("WPV_HARD_CAP_S").ok().and_then(|s| s.parse::<u64>().ok()).unwrap_or(if tier.is_quick() { 600 } else { 5400 });
             let id2 = id.clone();
             std::thread::spawn(move || {
                 std::thread::sleep(std::time::Duration::from_secs(hard_cap));
